@@ -298,7 +298,7 @@ class C19(core.Check):
         'inverted-range:numeric_bytecode', 'inverted-range:relative_address', 'inverted-range:relative_address/zero-bound',
         'inverted-range:numeric_bytecode/zero-bound', 'zone:inverted', 'zone:beyond-address-width',
         'origin-below-redefined-GLOBAL', 'instruction-without-bytecode', 'variant-without-bytecode', 'unknown-operand-type',
-        'enumeration-key-is-register', 'isa-version-not-semver', 'gate:min_version', 'gate:require', 'fmt:yaml', 'fmt:json']}
+        'enumeration-key-is-register', 'isa-version-not-semver', 'gate:min_version', 'gate:require', 'gate:require/name-from-file-name', 'fmt:yaml', 'fmt:json']}
 
     def run(self, isa, fmt, src='.byte 0\n'):
         fn, text = isamod.render_isa(isa, fmt)
@@ -350,6 +350,27 @@ class C19(core.Check):
                            'tags': ['gate:require', 'fmt:json']}
                     if op is None:
                         break
+
+        # the language name of a definition without identifier.name is its file's base name (dots inside it included);
+        # a definition without identifier has version 0.0.1
+        for base in ('cpu-v1.2', 'my.cpu.isa', 'plainname', 'v2.0.1-beta'):
+            for fmt in ('yaml', 'json'):
+                for ident in ('none', 'version-only'):
+                    for req, ok in ((base, True), (base.split('.')[0], base.split('.')[0] == base), (base + 'x', False),
+                                    (base.rsplit('.', 1)[0], base.rsplit('.', 1)[0] == base), (base + ' >= 0.0.1', True),
+                                    (base + ' > 9.9.9', False)):
+                        isa = gen_prog.layout_isa(16)
+                        if ident == 'none':
+                            isa['general'].pop('identifier', None)
+                        else:
+                            isa['general']['identifier'] = {'version': '0.0.1'}
+                        _, text = isamod.render_isa(isa, fmt)
+                        fn = base + '.' + fmt
+                        line = f'#require "{req}"'
+                        yield {'runs': [{'files': {fn: text, 'p.asm': line + '\n.byte 0\n'},
+                                         'argv': ['compile', '-c', fn, 'p.asm', '-o', 'out.bin'], 'probes': ['steps'], 'step_limit': 500000}],
+                               'meta': {'expect': 'ACCEPT' if ok else 'REJECT', 'what': f'{line} with {fn} ({ident})', 'style': 'gate'},
+                               'tags': ['gate:require', 'gate:require/name-from-file-name', 'fmt:' + fmt]}
 
     def judge(self, case, outcomes):
         o = outcomes[0]
